@@ -702,7 +702,9 @@ func (w *World) bindAmount(c *Chain, token common.Address, oriChain string) int6
 }
 
 // ValueDigest covers the stores in which a packet's application effects live.
-func (w *World) ValueDigest(n string) string { return w.Chains[n].Digest("evm", "bank", "staking", "gov") }
+func (w *World) ValueDigest(n string) string {
+	return w.Chains[n].Digest("evm", "bank", "staking", "gov")
+}
 
 // FullDigest covers everything a rejected message must leave unchanged.
 func (w *World) FullDigest(n string) string {
